@@ -81,6 +81,9 @@ type Task struct {
 	// text, "env" = only through the task's env: block, "sub" = only through the vars of
 	// the task's own sub-calls (the task then has Call entries only).
 	XVia string
+	// PFromX: the task is the callee of a "sub" when_changed task: it extends the path it was given by the X
+	// it was given (task vars: P: '{{.P}}[{{.X}}]'), so that its events identify the call of its caller
+	PFromX bool
 	File int // 0 = root Taskfile; k>0 = included file k (namespace "n<k>")
 }
 
@@ -397,11 +400,15 @@ func (p *Prog) renderTask(b *strings.Builder, t *Task) {
 	case Once:
 		vars = append(vars, "P: "+yq(SharedKey(t, "")))
 	case WhenChanged:
-		if t.XVia == "env" {
+		if t.XVia == "env" || t.XVia == "sub" {
+			// no X in the task's own variables: it reaches the commands only through env / the sub-call's vars
 			vars = append(vars, "P: "+yq("@"+t.Name))
 		} else {
 			vars = append(vars, "P: "+yq("@"+t.Name+"[{{.X}}]"))
 		}
+	}
+	if t.PFromX {
+		vars = append(vars, "P: "+yq("{{.P}}[{{.X}}]"))
 	}
 	needMRow := false
 	for _, e := range t.Entries {
